@@ -304,8 +304,13 @@ def run_case(case):
         kwargs["classes"] = [user_class(n) for n in case["user"]]
     res = {}
     try:
-        metamodel_from_str(text, **kwargs)
+        mm = metamodel_from_str(text, **kwargs)
         res["impl"] = {"cls": "OK"}
+        # cls._tx_type of the classes of the grammar's namespace, in namespace order (read like tools/impl/c03.py does)
+        try:
+            res["kinds"] = [[n, c._tx_type] for n, c in mm.namespaces[None].items()]
+        except BaseException as e:      # noqa: BLE001
+            res["kinds_error"] = type(e).__name__
     except BaseException as e:      # noqa: BLE001 - the property is about every exception type
         tb = traceback.extract_tb(e.__traceback__)
         where = "%s:%d" % (tb[-1].filename.replace("\\", "/").split("/")[-1], tb[-1].lineno) if tb else "?"
